@@ -65,4 +65,4 @@ static bool replay(const std::string &text) {
     if (idx >= vp_alias_probe_count) return false;
     return one(idx, strtoull(w[2].c_str(), 0, 10), strtoull(w[3].c_str(), 0, 10));
 }
-int main(int argc, char **argv) { return vp::main_(argc, argv, {run, replay}); }
+VP_MAIN(run, replay)
